@@ -366,7 +366,7 @@ def check_step(row, y, u):
     return None
 
 
-def oracle_paths(ctx, case, res, rows):
+def oracle_paths(ctx, case, res, rows, kind_override=None):
     """property oracle on an 'ok' result of simulate_indices / simulate / mc_sample_path"""
     n = len(rows)
     dim2, X, consumed = res[1], res[2], res[3]
@@ -375,13 +375,20 @@ def oracle_paths(ctx, case, res, rows):
     init, nr = case["init"], case["num_reps"]
     inp = {"function": case["kind"], "sparse": bool(case["sparse"] or case.get("csr")), "P": case.get("P"), "csr": case.get("csr"),
            "ts": ts, "init": init, "init_form": case.get("init_form"), "num_reps": nr, "stream": case["stream"], "ints": case.get("ints")}
+    if kind_override:
+        inp["negative_init"] = True
+
+    def fail(kind, what, inp_, impl, exp):
+        ctx.fail(kind_override or kind, what, inp_, impl, exp)
     off = 0
     if case["kind"] == "mcsp":
-        exp_inits = None
         exp_dim2 = False
         k = 1
         if case.get("init_form") == "dist":
             off = 1
+            exp_inits = None
+        else:
+            exp_inits = [init]
     else:
         if init is None:
             k = 1 if nr is None else nr
@@ -396,32 +403,33 @@ def oracle_paths(ctx, case, res, rows):
             k = len(exp_inits)
             exp_dim2 = True
     if dim2 != exp_dim2 or len(X) != k or any(len(r) != ts for r in X):
-        ctx.fail("shape", "returned array does not have the documented shape", inp, [dim2, len(X), [len(r) for r in X][:5]], [exp_dim2, k, ts])
+        fail("shape", "returned array does not have the documented shape", inp, [dim2, len(X), [len(r) for r in X][:5]], [exp_dim2, k, ts])
         return
     if consumed != off + k * (ts - 1):
-        ctx.fail("stream_use", "number of uniforms consumed is not k*(ts_length-1)", inp, consumed, off + k * (ts - 1))
+        fail("stream_use", "number of uniforms consumed is not k*(ts_length-1)", inp, consumed, off + k * (ts - 1))
     for i, path in enumerate(X):
         us = stream[off + i * (ts - 1): off + (i + 1) * (ts - 1)]
-        if exp_inits is not None and path[0] != exp_inits[i]:
-            ctx.fail("start", "path does not start at the requested initial state", inp, path[:5], exp_inits[i])
+        # the requested initial state; an index in [-n, 0) names state n+index
+        if exp_inits is not None and path[0] != exp_inits[i] % n:
+            fail("start", "path does not start at the requested initial state", inp, path[:5], exp_inits[i] % n)
             return
         if case["kind"] == "mcsp" and case.get("init_form") == "dist":
             psi = [Fraction(x) for x in unhx(init)]
             why = check_step(list(enumerate(psi)), path[0], stream[0]) if 0 <= path[0] < len(psi) else "initial state out of range"
             if why:
-                ctx.fail("initial_draw", "mc_sample_path initial state: " + why, inp, path[:5], None)
+                fail("initial_draw", "mc_sample_path initial state: " + why, inp, path[:5], None)
                 return
-        if not (-n <= path[0] < n):
-            ctx.fail("range", "initial entry outside the state space", inp, path[:8], None)
+        if not (0 <= path[0] < n):
+            fail("range", "initial entry outside the state space", inp, path[:8], None)
             return
         for t in range(ts - 1):
             x, y = path[t], path[t + 1]
             if not (0 <= y < n):
-                ctx.fail("range", "entry outside the state space", dict(inp, step=t, row=i), path[:t + 3], None)
+                fail("range", "entry outside the state space", dict(inp, step=t, row=i), path[:t + 3], None)
                 return
-            why = check_step(rows[x % n], y, us[t])
+            why = check_step(rows[x], y, us[t])
             if why:
-                ctx.fail("transition", why, dict(inp, step=t, row=i, u=float(us[t]).hex()), [x, y], None)
+                fail("transition", why, dict(inp, step=t, row=i, u=float(us[t]).hex()), [x, y], None)
                 return
 
 
@@ -503,7 +511,7 @@ def make_cases(ctx, thorough):
                     c["stream"] = hx(pre + gen_stream(rng, rt, inits, ts))
                 else:
                     form = rng.choice(["none", "none_reps", "int", "int", "npint", "int_reps", "list", "tuple", "array", "list_reps", "empty"])
-                    lo = 0 if (kind == "sim" or vname != "dense") else -n      # negative inits: dense simulate_indices only
+                    lo = 0 if kind == "sim" else -n      # simulate_indices accepts -n <= init < n
                     if form in ("none", "none_reps"):
                         c["init"] = None
                         k = 1
@@ -527,6 +535,8 @@ def make_cases(ctx, thorough):
                             c["num_reps"] = r = rng.choice([0, 1, 2, 3])
                         inits = c["init"] * r
                     c["stream"] = hx(gen_stream(rng, rt, inits, ts))
+                    # a sparse chain with a negative init once segfaulted: such cases run only in the bounds-checked interpreter
+                    c["bc_only"] = vname != "dense" and any(i < 0 for i in inits)
                 cases.append(c)
         # malformed stream: init out of range, bad ts / num_reps  (ValueError expected)
         if rng.random() < 0.5:
@@ -567,84 +577,25 @@ def run(ctx):
                     "NUMBA_BOUNDSCHECK=1 as the detector of out-of-bounds reads"]
 
     cases = make_cases(ctx, thorough)
-    # known-defect probes (sparse kernel with a negative init accepted by simulate_indices): boundscheck interpreter only
+    # fixed probes of the defect repaired by 454b8b2 (sparse kernel, negative init accepted by the range check)
     perm = [[0.0, 1.0, 0.0], [0.0, 0.0, 1.0], [1.0, 0.0, 0.0]]
-    probes = [dict(P=[hx(r) for r in [[0.5, 0.5, 0.0], [0.0, 0.5, 0.5], [0.25, 0.25, 0.5]]], sparse=True, csr=None, kind="sim_idx", ts=4,
-                   num_reps=None, ints=[], init_form="int", init=-1, stream=hx([0.5] * 3), mode="probe", variant="sparse_neg_init"),
-              dict(P=[hx(r) for r in perm], sparse=True, csr=None, kind="sim_idx", ts=3,
-                   num_reps=None, ints=[], init_form="list", init=[-3, -2], stream=hx([0.5] * 4), mode="probe", variant="sparse_neg_init")]
-    # ---- second interpreter under NUMBA_BOUNDSCHECK=1 (started first, collected at the end)
+    small = [[0.5, 0.5, 0.0], [0.0, 0.5, 0.5], [0.25, 0.25, 0.5]]
+    for rows_, init_, form_, ts_ in ((small, -1, "int", 4), (perm, [-3, -2], "list", 3), (perm, [-1, -2, -3], "array", 4), (small, -3, "npint", 5)):
+        for sparse_ in (True, False):
+            k_ = 1 if isinstance(init_, int) else len(init_)
+            cases.append(dict(P=[hx(r) for r in rows_], sparse=sparse_, csr=None, kind="sim_idx", ts=ts_, num_reps=None, ints=[],
+                              init_form=form_, init=init_, stream=hx([0.5, 0.0, ONE_M, 0.25] * k_)[:k_ * (ts_ - 1)], mode="probe",
+                              variant="sparse" if sparse_ else "dense", bc_only=sparse_))
+    # ---- second interpreter under NUMBA_BOUNDSCHECK=1 (started first, collected later)
     tmpd = tempfile.mkdtemp(prefix="c10_", dir=ctx.work)
     fin, fout = os.path.join(tmpd, "in.json"), os.path.join(tmpd, "out.json")
-    json.dump(cases + probes, open(fin, "w"))
+    json.dump(cases, open(fin, "w"))
     env = dict(os.environ, NUMBA_BOUNDSCHECK="1", NUMBA_CACHE_DIR=os.path.join(VERIF, ".cache", "numba_boundscheck"))
     sub = subprocess.Popen([sys.executable, os.path.abspath(__file__), "--worker", fin, fout], env=env,
                            stdout=subprocess.PIPE, stderr=subprocess.STDOUT)
-
-    # ---- main interpreter: implementation, oracle, Coq literals
-    coq = {"sim_idx": [], "sim": [], "mcsp": []}
-    meta = {"sim_idx": [], "sim": [], "mcsp": []}
-    args = {"sim_idx": [], "sim": [], "mcsp": []}
-    results = []
-    for ci, c in enumerate(cases):
-        res = run_case(c)
-        results.append(res)
-        n = len(c["P"])
-        ctx.count("sim:%s" % c["kind"])
-        ctx.count("sim:variant=%s" % c["variant"].split(":")[0])
-        ctx.count("sim:matrix=%s" % c["mode"])
-        ctx.count("sim:outcome=%s" % res[0])
-        ctx.count("sim:n=%d" % n if n < 8 else "sim:n>=8")
-        form = "none" if c["init"] is None else c["init_form"]
-        ctx.count("sim:init=%s%s" % (form, "" if c["num_reps"] is None else "+num_reps"))
-        st = unhx(c["stream"])
-        ctx.count("sim:u=0", sum(1 for u in st if u == 0.0))
-        ctx.count("sim:u=1-2^-53", sum(1 for u in st if u == ONE_M))
-        ctx.count("sim:uniforms", len(st))
-        ctx.case(("sim", c["kind"], c["P"], c["csr"], c["sparse"], c["ts"], c["init"], c["num_reps"], c["stream"], c["ints"]),
-                 nontrivial=(res[0] == "ok" and n >= 2 and c["ts"] >= 2 and len(res[2]) >= 1),
-                 sample={"call": c["kind"], "n": n, "variant": c["variant"], "ts": c["ts"], "init": c["init"], "num_reps": c["num_reps"],
-                         "stream_head": st[:3], "impl": res[:3] if res[0] != "ok" else res[2][:2]})
-        rows = stored_rows(c)
-        if res[0] == "ok":
-            oracle_paths(ctx, c, res, rows)
-        elif res[0] in ("IndexError", "Other"):
-            ctx.fail("oob_read" if res[0] == "IndexError" else "exception", "unexpected exception from the implementation",
-                     {"function": c["kind"], "P": c["P"], "csr": c["csr"], "sparse": c["sparse"], "ts": c["ts"], "init": c["init"],
-                      "num_reps": c["num_reps"], "stream": c["stream"]}, res, None)
-        elif not c["variant"].startswith("malformed"):
-            ctx.fail("rejected", "valid call raised ValueError", {"function": c["kind"], "P": c["P"], "csr": c["csr"], "sparse": c["sparse"],
-                     "ts": c["ts"], "init": c["init"], "num_reps": c["num_reps"]}, res, None)
-        arrays = csr_arrays(c) if (c["sparse"] or c["csr"]) else None
-        ch = chain_lit(c, arrays)
-        stream = flist(st)
-        if c["kind"] == "mcsp":
-            ini = "(inr %s)" % flist(unhx(c["init"])) if c["init_form"] == "dist" else "(inl %s)" % zlit(c["init"])
-            coq["mcsp"].append(tup(ch, ini, zlit(c["ts"]), stream, res_lit(res, one_row=True)))
-        else:
-            a = (ch, zlit(c["ts"]), init_lit(c), optz(c["num_reps"]), zlist(c["ints"]), stream)
-            args[c["kind"]].append(a)
-            coq[c["kind"]].append(tup(*(a + (res_lit(res),))))
-        meta[c["kind"]].append(ci)
-
+    # ---- main interpreter (cases flagged bc_only are not run here)
+    results = [None if c.get("bc_only") else run_case(c) for c in cases]
     ctype = "@chain float * Z * init_t * option Z * list Z * list float * res (bool * list (list Z))"
-    for kind, fn in (("sim_idx", "simulate_indices"), ("sim", "simulate")):
-        bad = ctx.coq_check(fn, IMPORTS, ctype,
-                            "fun c => let '(ch, ts, init, nr, drawn, stream, exp) := c in res_eqb pr_eqb (%s ch ts init nr drawn stream) exp" % fn,
-                            coq[kind], chunk=60, preamble=PREAMBLE)
-        for i in bad:
-            c = cases[meta[kind][i]]
-            ctx.mismatch("C10.Model.%s (float instance, bit-exact) vs MarkovChain.%s" % (fn, fn),
-                         {k: c[k] for k in ("P", "csr", "sparse", "ts", "init", "init_form", "num_reps", "ints", "stream")},
-                         results[meta[kind][i]],
-                         ctx.coq_eval(IMPORTS, "%s %s" % (fn, " ".join(args[kind][i])), preamble=PREAMBLE)[-600:])
-    bad = ctx.coq_check("mc_sample_path", IMPORTS, "@chain float * (Z + list float) * Z * list float * res (list Z)",
-                        "fun c => let '(ch, init, ts, stream, exp) := c in res_eqb Zs_eqb (mc_sample_path ch init ts stream) exp",
-                        coq["mcsp"], chunk=60, preamble=PREAMBLE)
-    for i in bad:
-        c = cases[meta["mcsp"][i]]
-        ctx.mismatch("C10.Model.mc_sample_path (float instance) vs markov.core.mc_sample_path",
-                     {k: c[k] for k in ("P", "csr", "sparse", "ts", "init", "init_form", "stream")}, results[meta["mcsp"][i]])
 
     # ---- exact instance tied as well: dyadic chains and dyadic uniforms (float arithmetic exact) run through NumQ
     qcases, qmeta = [], []
@@ -716,9 +667,9 @@ def run(ctx):
             ctx.fail("constructor_guard", "MarkovChain accepts/rejects against its documented checks", {"P": A.tolist(), "sparse": sparse}, acc, ex_ok)
         if sparse:
             S = sp.csr_matrix(A)
-            acases.append(tup(blit(True), flit(tol), "(@nil (list float))", zlit(n), flist(S.data.tolist()), zlist(S.indptr.tolist()), blit(acc)))
+            acases.append(tup(blit(True), flit(tol) + "%float", "(@nil (list float))", zlit(n), flist(S.data.tolist()), zlist(S.indptr.tolist()), blit(acc)))
         else:
-            acases.append(tup(blit(False), flit(tol), flist2(A.tolist()), zlit(n), "(@nil float)", "(@nil Z)", blit(acc)))
+            acases.append(tup(blit(False), flit(tol) + "%float", flist2(A.tolist()), zlit(n), "(@nil float)", "(@nil Z)", blit(acc)))
         ameta.append((A.tolist(), sparse, acc))
     bad = ctx.coq_check("mc_accepts", IMPORTS, "bool * float * list (list float) * Z * list float * list Z * bool",
                         "fun c => let '(sp, tol, P, n, data, indptr, acc) := c in Bool.eqb (if sp then mc_accepts_sparse tol n data indptr else mc_accepts_dense tol P) acc",
@@ -856,34 +807,85 @@ def run(ctx):
     if sub.returncode != 0 or not os.path.exists(fout):
         ctx.obligations.append({"name": "NUMBA_BOUNDSCHECK=1 interpreter ran to completion", "ok": False, "detail": out.decode("utf-8", "replace")[-1500:]})
         return
-    ctx.obligations.append({"name": "NUMBA_BOUNDSCHECK=1 interpreter ran to completion", "ok": True, "detail": "%d cases" % (len(cases) + len(probes))})
+    ctx.obligations.append({"name": "NUMBA_BOUNDSCHECK=1 interpreter ran to completion", "ok": True, "detail": "%d cases" % len(cases)})
     bres = json.load(open(fout))
-    for c, r_main, r_bc in zip(cases, results, bres[:len(cases)]):
-        ctx.count("boundscheck:%s" % r_bc[0])
-        inp = {"function": c["kind"], "P": c["P"], "csr": c["csr"], "sparse": c["sparse"], "ts": c["ts"], "init": c["init"],
-               "num_reps": c["num_reps"], "stream": c["stream"], "ints": c["ints"]}
-        if r_bc[0] == "IndexError":
-            ctx.fail("oob_read", "out-of-bounds array read in a jitted kernel (IndexError under NUMBA_BOUNDSCHECK=1)", inp, r_bc, r_main)
-        elif r_bc[:3] != r_main[:3] and not (r_bc[0] == r_main[0] == "ValueError"):
-            ctx.fail("boundscheck_differs", "result under NUMBA_BOUNDSCHECK=1 differs from the normal run", inp, r_bc, r_main)
-    # probes of the sparse kernel with negative init (accepted by simulate_indices' own range check)
-    for c, r in zip(probes, bres[len(cases):]):
+
+    # ---- simulate_indices / simulate / mc_sample_path: oracle, bounds-check comparison, Coq literals
+    coq = {"sim_idx": [], "sim": [], "mcsp": []}
+    meta = {"sim_idx": [], "sim": [], "mcsp": []}
+    args = {"sim_idx": [], "sim": [], "mcsp": []}
+    for ci, c in enumerate(cases):
+        bc_only = bool(c.get("bc_only"))
+        r_bc = bres[ci]
+        res = r_bc if bc_only else results[ci]
+        results[ci] = res
         n = len(c["P"])
-        inp = {"function": "simulate_indices", "sparse": True, "negative_init": True, "P": c["P"], "ts": c["ts"], "init": c["init"], "stream": c["stream"]}
-        ctx.case(("probe", c["P"], c["init"]), nontrivial=True)
-        ctx.count("probe:sparse_negative_init=%s" % r[0])
-        rows = stored_rows(dict(c, sparse=False))
-        okp = r[0] == "ok" and all(0 <= y < n and rows[x % n][y][1] > 0 for p in r[2] for x, y in zip(p, p[1:]))
-        if not okp:
-            ctx.fail("sparse_negative_init", "sparse simulate_indices with an accepted negative init reads out of bounds / uses the wrong row",
-                     inp, r, None)
-        arrays = csr_arrays(dict(c, init=0))
-        lit = tup(chain_lit(c, arrays), zlit(c["ts"]), init_lit(c), "None", "(@nil Z)", flist(unhx(c["stream"])), res_lit(r))
-        bad = ctx.coq_check("simulate_indices_sparse_negative_init", IMPORTS, ctype,
-                            "fun c => let '(ch, ts, init, nr, drawn, stream, exp) := c in res_eqb pr_eqb (simulate_indices ch ts init nr drawn stream) exp",
-                            [lit], preamble=PREAMBLE)
-        for _i in bad:
-            ctx.mismatch("C10.Model.simulate_indices (sparse, negative init) vs implementation under NUMBA_BOUNDSCHECK=1", inp, r)
+        ctx.count("sim:%s" % c["kind"])
+        ctx.count("sim:variant=%s" % c["variant"].split(":")[0])
+        ctx.count("sim:matrix=%s" % c["mode"])
+        ctx.count("sim:outcome=%s" % res[0])
+        ctx.count("boundscheck:%s" % r_bc[0])
+        ctx.count("sim:n=%d" % n if n < 8 else "sim:n>=8")
+        form = "none" if c["init"] is None else c["init_form"]
+        ctx.count("sim:init=%s%s" % (form, "" if c["num_reps"] is None else "+num_reps"))
+        neg = c["init"] is not None and c["init_form"] != "dist" and any(i < 0 for i in ([c["init"]] if isinstance(c["init"], int) else c["init"]))
+        if neg:
+            ctx.count("sim:negative_init(%s)" % ("sparse" if c["sparse"] or c["csr"] else "dense"))
+        st = unhx(c["stream"])
+        ctx.count("sim:u=0", sum(1 for u in st if u == 0.0))
+        ctx.count("sim:u=1-2^-53", sum(1 for u in st if u == ONE_M))
+        ctx.count("sim:uniforms", len(st))
+        ctx.case(("sim", c["kind"], c["P"], c["csr"], c["sparse"], c["ts"], c["init"], c["num_reps"], c["stream"], c["ints"]),
+                 nontrivial=(res[0] == "ok" and n >= 2 and c["ts"] >= 2 and len(res[2]) >= 1),
+                 sample={"call": c["kind"], "n": n, "variant": c["variant"], "ts": c["ts"], "init": c["init"], "num_reps": c["num_reps"],
+                         "stream_head": st[:3], "impl": res[:3] if res[0] != "ok" else res[2][:2]})
+        inp = {"function": c["kind"], "P": c["P"], "csr": c["csr"], "sparse": bool(c["sparse"] or c["csr"]), "ts": c["ts"], "init": c["init"],
+               "init_form": c["init_form"], "num_reps": c["num_reps"], "stream": c["stream"], "ints": c["ints"]}
+        override = "sparse_negative_init" if bc_only else None
+        if bc_only:
+            inp["negative_init"] = True
+        rows = stored_rows(c)
+        if res[0] == "ok":
+            oracle_paths(ctx, c, res, rows, kind_override=override)
+        elif res[0] in ("IndexError", "Other"):
+            ctx.fail(override or ("oob_read" if res[0] == "IndexError" else "exception"),
+                     "out-of-bounds read / unexpected exception in the sample-path kernel", inp, res, None)
+        elif not c["variant"].startswith("malformed"):
+            ctx.fail(override or "rejected", "valid call raised ValueError", inp, res, None)
+        if not bc_only:
+            if r_bc[0] == "IndexError":
+                ctx.fail("oob_read", "out-of-bounds array read in a jitted kernel (IndexError under NUMBA_BOUNDSCHECK=1)", inp, r_bc, res)
+            elif r_bc[:3] != res[:3] and not (r_bc[0] == res[0] == "ValueError"):
+                ctx.fail("boundscheck_differs", "result under NUMBA_BOUNDSCHECK=1 differs from the normal run", inp, r_bc, res)
+        arrays = csr_arrays(c) if (c["sparse"] or c["csr"]) else None
+        ch = chain_lit(c, arrays)
+        stream = flist(st)
+        if c["kind"] == "mcsp":
+            ini = "(inr %s)" % flist(unhx(c["init"])) if c["init_form"] == "dist" else "(inl %s)" % zlit(c["init"])
+            coq["mcsp"].append(tup(ch, ini, zlit(c["ts"]), stream, res_lit(res, one_row=True)))
+        else:
+            a = (ch, zlit(c["ts"]), init_lit(c), optz(c["num_reps"]), zlist(c["ints"]), stream)
+            args[c["kind"]].append(a)
+            coq[c["kind"]].append(tup(*(a + (res_lit(res),))))
+        meta[c["kind"]].append(ci)
+
+    for kind, fn in (("sim_idx", "simulate_indices"), ("sim", "simulate")):
+        bad = ctx.coq_check(fn, IMPORTS, ctype,
+                            "fun c => let '(ch, ts, init, nr, drawn, stream, exp) := c in res_eqb pr_eqb (%s ch ts init nr drawn stream) exp" % fn,
+                            coq[kind], chunk=60, preamble=PREAMBLE)
+        for i in bad:
+            c = cases[meta[kind][i]]
+            ctx.mismatch("C10.Model.%s (float instance, bit-exact) vs MarkovChain.%s" % (fn, fn),
+                         {k: c[k] for k in ("P", "csr", "sparse", "ts", "init", "init_form", "num_reps", "ints", "stream")},
+                         results[meta[kind][i]],
+                         ctx.coq_eval(IMPORTS, "%s %s" % (fn, " ".join(args[kind][i])), preamble=PREAMBLE)[-600:])
+    bad = ctx.coq_check("mc_sample_path", IMPORTS, "@chain float * (Z + list float) * Z * list float * res (list Z)",
+                        "fun c => let '(ch, init, ts, stream, exp) := c in res_eqb Zs_eqb (mc_sample_path ch init ts stream) exp",
+                        coq["mcsp"], chunk=60, preamble=PREAMBLE)
+    for i in bad:
+        c = cases[meta["mcsp"][i]]
+        ctx.mismatch("C10.Model.mc_sample_path (float instance) vs markov.core.mc_sample_path",
+                     {k: c[k] for k in ("P", "csr", "sparse", "ts", "init", "init_form", "stream")}, results[meta["mcsp"][i]])
     try:
         import shutil
         shutil.rmtree(tmpd)
